@@ -35,6 +35,7 @@ REQUIRED = {
     "edge_lap/symmetric": 100, "edge_lap/row_sum": 100,
     "vol_lap/symmetric": 20, "vol_lap/row_sum": 20, "vol_lap/stiffness": 8, "tet_lap/degree_minus_adjacency": 20,
     "vol_mass/vertex_sum": 20, "vol_mass/cells": 20, "vol_mass/option": 60,
+    "conn_lap/vertices_hermitian": 50, "conn_lap/faces_hermitian": 50, "conn_lap/edges_hermitian": 50,
 }
 CASE_TIMEOUT = {"quick": 120.0, "thorough": 600.0}
 ASSUMPTIONS = [
@@ -50,6 +51,8 @@ ASSUMPTIONS = [
     "laplacian_triangles(cotan=True) off-diagonal magnitudes with 1/|cot a + cot b| (sign left open, entries near the 1e-8 clamp not judged)",
     "vertex_to_face_operator is accepted in either orientation (|F|x|V| as returned, |V|x|F| as its docstring says)",
     "edge-indexed operators are compared in the edge numbering of mesh.edges (C01/C02 decide that numbering); values are recomputed",
+    "connection (vector) Laplacians are not among the statement's options: only Hermitian symmetry and entry moduli equal to the scalar "
+    "operator's are required of them",
     "config.sort_neighborhoods stays at its default",
 ]
 
@@ -197,6 +200,7 @@ _SITE = {
     "mass_edges": "area_weight_matrix_edges", "mass_edges_inverse": "area_weight_matrix_edges",
     "dual_cotan": "laplacian_triangles", "dual_uniform": "laplacian_triangles", "edge_cotan": "laplacian_edges", "edge_uniform": "laplacian_edges",
     "cotan_diag_inverse": "cotan_edge_diagonal", "cotan_diag": "cotan_edge_diagonal",
+    "laplacian_connection": "laplacian(connection)", "dual_connection": "laplacian_triangles(connection)", "edge_connection": "laplacian_edges(connection)",
     "mass_cells": "volume_weight_matrix_cells", "mass_cells_inverse": "volume_weight_matrix_cells",
     "mass_cells_sqrt": "volume_weight_matrix_cells", "mass_cells_inverse_sqrt": "volume_weight_matrix_cells",
     "mass_vertices": "vertex_weight_matrix", "mass_vertices_inverse": "vertex_weight_matrix",
@@ -397,6 +401,25 @@ def _tri_case(ctx, desc, z, flat):
     ]
     if flat:
         ops.append(("gradient_flat", "grad", grad_bundle(P.FlatConnectionFaces)))
+    # connection (vector) Laplacians: not among the statement's options; only their Hermitian symmetry and the moduli of their
+    # entries (= the scalar operator's) are looked at, which also executes the parallel-transport branches of the assembly loops
+    order = rng.choice([1, 2, 4])
+
+    def with_connection(conn_cls, fn):
+        def run(m):
+            try:  # building the connection is not this property's business (e.g. a vertex normal parallel to an edge): skip, noted
+                conn = conn_cls(m)
+            except Exception:  # noqa
+                ctx.note("connection_unavailable:" + conn_cls.__name__)
+                return None
+            return fn(m, conn)
+        return run
+    ops += [
+        ("laplacian_connection", "conn_lap", with_connection(P.SurfaceConnectionVertices, lambda m, c: O.laplacian(m, connection=c, order=order))),
+        ("dual_connection", "conn_lap", with_connection(P.SurfaceConnectionFaces, lambda m, c: O.laplacian_triangles(m, connection=c, order=order))),
+        ("edge_connection", "conn_lap", with_connection(P.SurfaceConnectionEdges,
+                                                        lambda m, c: (O.laplacian_edges(m, connection=c, order=order), build.edges_list(m)))),
+    ]
 
     def prepare(m):
         if desc["history"] == "angles":
@@ -574,6 +597,37 @@ def _tri_case(ctx, desc, z, flat):
                    "laplacian_edges is not a positive multiple of the edge-based stiffness matrix (-2 cot(angle between two sides) off the diagonal)",
                    D, sc * ref, max(rel * 10, 1e-8), option=name, scale=sc,
                    classify=lambda i, j: "diagonal" if i == j else ("sides_of_a_triangle" if (i, j) in pairs else "unrelated_edges"))
+
+    # ---- connection Laplacians: Hermitian, same moduli as the scalar operator
+    def hermitian_and_moduli(opname, Dc, Ds, relc, judge_moduli=True):
+        tolh = relc * R.row_norms(np.abs(Dc), np.abs(Dc).T)
+        ok, i, j, val = R.worst_entry(np.abs(Dc - Dc.conj().T), tolh)
+        ctx.check(ok, "conn_lap", opname + "_hermitian", "not_hermitian", "connection Laplacian differs from its conjugate transpose",
+                  row=i, col=j, order=order)
+        if Ds is not None and judge_moduli:
+            _close(ctx, "conn_lap", opname + "_moduli", "moduli_differ_from_scalar_operator",
+                   "entries of the connection Laplacian do not have the moduli of the scalar Laplacian's entries", np.abs(Dc), np.abs(Ds), relc, order=order)
+
+    Dc = _dense(ctx, "conn_lap", "laplacian(connection)", res.get("laplacian_connection"), (nV, nV))
+    if Dc is not None:
+        hermitian_and_moduli("vertices", Dc, K, rel)
+    Dc = _dense(ctx, "conn_lap", "laplacian_triangles(connection)", res.get("dual_connection"), (nF, nF))
+    if Dc is not None:
+        Ds = _dense(ctx, "dual_lap", "dual_cotan", res.get("dual_cotan"), (nF, nF))
+        inc_ = R.edge_face_incidence(F)
+        cnt = {}
+        for e, fl in inc_.items():
+            if len(fl) == 2:
+                cnt[(min(fl), max(fl))] = cnt.get((min(fl), max(fl)), 0) + 1
+        hermitian_and_moduli("faces", Dc, Ds, 1e-6, judge_moduli=all(c == 1 for c in cnt.values()))
+    r = res.get("edge_connection")
+    if r is not None:
+        Dc = _dense(ctx, "conn_lap", "laplacian_edges(connection)", r[0], (nE, nE))
+        rs = res.get("edge_cotan")
+        Ds = _dense(ctx, "edge_lap", "edge_cotan", rs[0], (nE, nE)) if rs is not None else None
+        if Dc is not None:
+            same_numbering = rs is not None and r[1] == rs[1]
+            hermitian_and_moduli("edges", Dc, Ds if same_numbering else None, max(rel * 10, 1e-8))
 
     # ---- cotan edge diagonal
     r1, r0 = res.get("cotan_diag_inverse"), res.get("cotan_diag")
